@@ -72,13 +72,12 @@ impl DualConnector {
         right_feat_ids_tmp: &[Vec<U31>],
         left_feat_ids_tmp: &[Vec<U31>],
         matrix_indices: &[usize],
-        feat_template_size: usize,
         scorer: &Scorer,
     ) -> (MatrixConnector, Vec<u16>, Vec<u16>) {
         let generate_feature_map = |feat_ids_tmp: &[Vec<U31>]| {
             let mut conn_id_map = vec![0];
             let mut feats_map = HashMap::new();
-            feats_map.insert(vec![U31::default(); feat_template_size - SIMD_SIZE], 0);
+            feats_map.insert(vec![U31::default(); matrix_indices.len()], 0);
             for row in feat_ids_tmp {
                 let mut feat_ids = vec![];
                 for &idx in matrix_indices {
@@ -174,12 +173,14 @@ impl DualConnector {
                 raw_indices.push(i);
             }
         }
+        // With fewer than SIMD_SIZE templates, pads the raw part with out-of-range indices
+        // (resulting in INVALID_FEATURE_ID) so that every id still occupies one full vector.
+        raw_indices.resize(SIMD_SIZE, usize::MAX);
 
         let (matrix_connector, right_conn_id_map, left_conn_id_map) = Self::create_matrix_connector(
             &right_feat_ids_tmp,
             &left_feat_ids_tmp,
             &matrix_indices,
-            feat_template_size,
             &scorer,
         );
         let (right_feat_ids, left_feat_ids) = Self::create_raw_connector(
